@@ -16,22 +16,28 @@ from vlib import common, realrun
 
 LEVEL = 'exploration'
 
-G_OUT = 'pre MO post\n'
-G_ERR = 'pre ME post\n'
-# 'eol': differs from the golden stream in its line terminator only
+# the golden streams are not pure text: each holds one byte that is not valid
+# UTF-8 (written here as the surrogate that stands for it)
+G_OUT = 'pre MO post \udcff\n'
+G_ERR = 'pre ME post \udc80\n'
+# 'eol': differs from the golden stream in its line terminator only;
+# 'byte': differs in the undecodable byte only
 OUTS = {'same': G_OUT, 'match': 'xx MO yy\n', 'nomatch': 'zz\n',
-        'eol': G_OUT.replace('\n', '\r\n')}
+        'eol': G_OUT.replace('\n', '\r\n'),
+        'byte': G_OUT.replace('\udcff', '\udcfe')}
 ERRS = {'same': G_ERR, 'match': 'xx ME yy\n', 'nomatch': 'zz\n',
-        'eol': G_ERR.replace('\n', '\r')}
+        'eol': G_ERR.replace('\n', '\r'),
+        'byte': G_ERR.replace('\udc80', '\udc81')}
 G_EXIT = 3
 # the cross-check command has a golden behaviour of its own
-C_OUT = 'cc MO out\n'
+C_OUT = 'cc MO out \udcfe\n'
 C_ERR = 'cc ME err\n'
 C_EXIT = 5
 C_OUTS = {'same': C_OUT, 'match': 'MO only\n', 'nomatch': G_OUT.replace('MO', 'mo'),
-          'eol': C_OUT.replace('\n', '\r\n')}
+          'eol': C_OUT.replace('\n', '\r\n'),
+          'byte': C_OUT.replace('\udcfe', '\udcff')}
 C_ERRS = {'same': C_ERR, 'match': 'ME only\n', 'nomatch': G_ERR.replace('ME', 'me'),
-          'eol': C_ERR + '\n'}
+          'eol': C_ERR + '\n', 'byte': C_ERR.replace('err', 'er\udce9')}
 
 
 def outcome_rules(prefix):
@@ -332,7 +338,7 @@ def argv_runs(res, wd, args):
 
 def run(ctx):
     shards = []
-    # main product: 32 option sets x 18 outcomes, exhaustive, 8 shards
+    # main product: 32 option sets x 50 outcomes, exhaustive, 8 shards
     for i in range(8):
         shards.append({'kind': 'main', 'shard': i, 'lo': 4 * i,
                        'hi': 4 * i + 4})
@@ -340,7 +346,7 @@ def run(ctx):
         for i in range(8):
             shards.append({'kind': 'cc', 'shard': 100 + i, 'sample': 32})
     else:
-        # full product: 256 (main, cc) option pairs x 32 x 32 outcomes
+        # full product: 256 (main, cc) option pairs x 50 x 50 outcomes
         for i in range(32):
             shards.append({'kind': 'cc', 'shard': 100 + i, 'lo': 8 * i,
                            'hi': 8 * i + 8})
@@ -353,12 +359,14 @@ def run(ctx):
     c09_real.run(ctx)
     ctx.rule = (
         'main command: all 32 settings of --ignore-output/--ignore-out/'
-        '--ignore-err/--match-out/--match-err x all 32 candidate outcomes '
+        '--ignore-err/--match-out/--match-err x all 50 candidate outcomes '
         '(exit same/different x stdout same/differs-with-match/differs-'
-        'without/differs-only-in-line-terminator x stderr likewise), exhaustive; with a cross-check command: '
-        + ('sampled option pairs, each with all 32 cc outcomes and all 32 '
+        'without/differs-only-in-line-terminator/differs-only-in-a-byte-'
+        'that-is-not-UTF-8 x stderr likewise; the golden streams hold such '
+        'a byte), exhaustive; with a cross-check command: '
+        + ('sampled option pairs, each with all 50 cc outcomes and all 50 '
            'main outcomes varied one at a time' if ctx.tier == 'quick' else
-           'all 256 option pairs x 32 x 32 outcomes, exhaustive') +
+           'all 256 option pairs x 50 x 50 outcomes, exhaustive') +
         '; --unchecked with every outcome; 8 golden x 8 candidate exit '
         'statuses (0,1,2,127,255, SIGABRT, SIGKILL, SIGSEGV) from real '
         'process runs; argv/extension on end-to-end '
